@@ -77,11 +77,11 @@ Proof.
   cbn [filter map]. rewrite is_error_ctx. destruct (is_error i); cbn [map]; rewrite IH; reflexivity.
 Qed.
 
-Lemma run_validators_off E I L e a vs :
-  run_validators E I false L e a vs = errors_of (run_validators E I true L e a vs).
+Lemma run_validators_off fx E I L e a vs :
+  run_validators fx E I false L e a vs = errors_of (run_validators fx E I true L e a vs).
 Proof.
   unfold run_validators. apply concat_mapM_errors. intros v _.
-  destruct (run_validator E I L v e a) as [ks|]; cbn [bind errors_of]; [|reflexivity].
+  destruct (run_validator fx E I L v e a) as [ks|]; cbn [bind errors_of]; [|reflexivity].
   now rewrite acf_off.
 Qed.
 
@@ -92,18 +92,19 @@ Proof.
   intros x _. apply acf_off.
 Qed.
 
-Lemma check_entry_off E I L e :
-  check_tag_entry_attributes E I false L e = errors_of (check_tag_entry_attributes E I true L e).
+Lemma check_entry_off fx E I L e :
+  check_tag_entry_attributes fx E I false L e = errors_of (check_tag_entry_attributes fx E I true L e).
 Proof.
   unfold check_tag_entry_attributes.
-  rewrite (concat_mapM_errors (fun kv => run_validators E I true L e (fst kv) (get_validators L (fst kv))))
-    by (intros x _; apply run_validators_off).
+  rewrite (concat_mapM_errors (fun kv => if skip_attribute fx e (fst kv) then Ok []
+                                         else run_validators fx E I true L e (fst kv) (get_validators L (fst kv))))
+    by (intros x _; destruct (skip_attribute fx e (fst x)); [reflexivity|apply run_validators_off]).
   destruct (concat_mapM _ (le_attrs e)) as [r|]; cbn [bind errors_of]; [|reflexivity].
   now rewrite filter_app, check_unknown_off.
 Qed.
 
-Lemma check_attributes_off E I L :
-  check_attributes E I false L = errors_of (check_attributes E I true L).
+Lemma check_attributes_off fx E I L :
+  check_attributes fx E I false L = errors_of (check_attributes fx E I true L).
 Proof.
   unfold check_attributes. apply concat_mapM_errors. intros sec _.
   apply concat_mapM_errors. intros e _. apply check_entry_off.
@@ -127,47 +128,48 @@ Proof.
   now rewrite acf_off.
 Qed.
 
-Lemma check_loaded_off E L :
-  check_loaded E false L = errors_of (check_loaded E true L).
+Lemma check_loaded_off fx E L :
+  check_loaded fx E false L = errors_of (check_loaded fx E true L).
 Proof.
   unfold check_loaded.
   destruct (id_validator_init E L) as [I|]; cbn [bind errors_of]; [|reflexivity].
   rewrite prerelease_off.
   destruct (check_if_prerelease_version E true L) as [pre|]; cbn [bind errors_of]; [|reflexivity].
   rewrite check_attributes_off.
-  destruct (check_attributes E I true L) as [at_|]; cbn [bind errors_of]; [|reflexivity].
+  destruct (check_attributes fx E I true L) as [at_|]; cbn [bind errors_of]; [|reflexivity].
   now rewrite !filter_app, check_duplicate_off.
 Qed.
 
-Lemma check_compliance_off E S :
-  check_compliance E false S = errors_of (check_compliance E true S).
+Lemma check_compliance_off fx E S :
+  check_compliance fx E false S = errors_of (check_compliance fx E true S).
 Proof.
   unfold check_compliance. destruct (load E S) as [L|]; cbn [bind errors_of]; [|reflexivity].
   apply check_loaded_off.
 Qed.
 
 (* with warnings off, everything that is returned is an error *)
-Lemma check_compliance_off_all_errors E S l :
-  check_compliance E false S = Ok l -> Forall (fun i => is_error i = true) l.
+Lemma check_compliance_off_all_errors fx E S l :
+  check_compliance fx E false S = Ok l -> Forall (fun i => is_error i = true) l.
 Proof.
-  rewrite check_compliance_off. destruct (check_compliance E true S) as [l'|]; cbn [errors_of]; [|discriminate].
+  rewrite check_compliance_off. destruct (check_compliance fx E true S) as [l'|]; cbn [errors_of]; [|discriminate].
   intros H; inversion H; subst. apply Forall_forall. intros i Hi. apply filter_In in Hi. tauto.
 Qed.
 
 (* ------------------------------------------------------------------ a finding of a rule reaches the result *)
 
-Lemma validator_issue_reported E L issues sec e a val v k :
-  check_loaded E true L = Ok issues ->
+Lemma validator_issue_reported fx E L issues sec e a val v k :
+  check_loaded fx E true L = Ok issues ->
   In e (section_values L sec) ->
   dict_get a (le_attrs e) = Some val ->
+  skip_attribute fx e a = false ->
   In v (get_validators L a) ->
-  (forall I ks, id_validator_init E L = Ok I -> run_validator E I L v e a = Ok ks -> In k ks) ->
+  (forall I ks, id_validator_init E L = Ok I -> run_validator fx E I L v e a = Ok ks -> In k ks) ->
   In (mkIssue k SevWarning (Some (le_sec e)) (Some (le_name e)) (Some a)) issues.
 Proof.
-  intros Hc He Ha Hv Hk. unfold check_loaded in Hc.
+  intros Hc He Ha Hsk Hv Hk. unfold check_loaded in Hc.
   destruct (id_validator_init E L) as [I|] eqn:HI; cbn [bind] in Hc; [|discriminate].
   destruct (check_if_prerelease_version E true L) as [pre|]; cbn [bind] in Hc; [|discriminate].
-  destruct (check_attributes E I true L) as [at_|] eqn:Hat; cbn [bind] in Hc; [|discriminate].
+  destruct (check_attributes fx E I true L) as [at_|] eqn:Hat; cbn [bind] in Hc; [|discriminate].
   inversion Hc; subst issues. apply in_or_app; right; apply in_or_app; left.
   unfold check_attributes in Hat.
   destruct (concat_mapM_in _ _ _ sec Hat (in_all_sections sec)) as (a1 & H1 & I1).
@@ -176,20 +178,21 @@ Proof.
   destruct (concat_mapM _ (le_attrs e)) as [r|] eqn:Hr; cbn [bind] in H2; [|discriminate].
   inversion H2; subst a2. apply in_or_app; right.
   destruct (concat_mapM_in _ _ _ (a, val) Hr (dict_get_in _ _ _ Ha)) as (a3 & H3 & I3).
-  apply I3. cbn [fst] in H3. unfold run_validators in H3.
+  apply I3. cbn [fst] in H3. rewrite Hsk in H3. unfold run_validators in H3.
   destruct (concat_mapM_in _ _ _ v H3 Hv) as (a4 & H4 & I4).
-  apply I4. destruct (run_validator E I L v e a) as [ks|] eqn:Hrv; cbn [bind] in H4; [|discriminate].
+  apply I4. destruct (run_validator fx E I L v e a) as [ks|] eqn:Hrv; cbn [bind] in H4; [|discriminate].
   inversion H4; subst a4. unfold add_context_and_filter.
   apply in_map_iff. exists (mkIssue k SevWarning None None None). split; [reflexivity|].
   apply in_map_iff. exists k. split; [reflexivity|]. exact (Hk I ks eq_refl Hrv).
 Qed.
 
-Lemma reported_code E L issues sec e a val v k :
-  check_loaded E true L = Ok issues ->
+Lemma reported_code fx E L issues sec e a val v k :
+  check_loaded fx E true L = Ok issues ->
   In e (section_values L sec) ->
   dict_get a (le_attrs e) = Some val ->
+  skip_attribute fx e a = false ->
   In v (get_validators L a) ->
-  (forall I ks, id_validator_init E L = Ok I -> run_validator E I L v e a = Ok ks -> In k ks) ->
+  (forall I ks, id_validator_init E L = Ok I -> run_validator fx E I L v e a = Ok ks -> In k ks) ->
   exists i, In i issues /\ i_code i = kind_code k /\ i_sev i = SevWarning
             /\ i_sec i = Some (le_sec e) /\ i_tag i = Some (le_name e) /\ i_attr i = Some a.
 Proof.
@@ -197,8 +200,8 @@ Proof.
 Qed.
 
 (* an undeclared attribute is reported as an error, whatever the warning switch *)
-Lemma unknown_attribute_reported E warn L issues sec e a :
-  check_loaded E warn L = Ok issues ->
+Lemma unknown_attribute_reported fx E warn L issues sec e a :
+  check_loaded fx E warn L = Ok issues ->
   In e (section_values L sec) ->
   In a (le_unknown e) ->
   In (mkIssue K_SCHEMA_ATTRIBUTE_INVALID SevError (Some (le_sec e)) (Some (le_name e)) None) issues.
@@ -206,7 +209,7 @@ Proof.
   intros Hc He Ha. unfold check_loaded in Hc.
   destruct (id_validator_init E L) as [I|]; cbn [bind] in Hc; [|discriminate].
   destruct (check_if_prerelease_version E warn L) as [pre|]; cbn [bind] in Hc; [|discriminate].
-  destruct (check_attributes E I warn L) as [at_|] eqn:Hat; cbn [bind] in Hc; [|discriminate].
+  destruct (check_attributes fx E I warn L) as [at_|] eqn:Hat; cbn [bind] in Hc; [|discriminate].
   inversion Hc; subst issues. apply in_or_app; right; apply in_or_app; left.
   unfold check_attributes in Hat.
   destruct (concat_mapM_in _ _ _ sec Hat (in_all_sections sec)) as (a1 & H1 & I1).
@@ -248,15 +251,15 @@ Proof.
   apply G, in_all_sections.
 Qed.
 
-Lemma duplicate_reported E warn L issues sec d name ents :
-  check_loaded E warn L = Ok issues ->
+Lemma duplicate_reported fx E warn L issues sec d name ents :
+  check_loaded fx E warn L = Ok issues ->
   In (sec, d) (l_dups L) -> In (name, ents) d ->
   In (mkIssue (dup_kind ents) SevError None None None) issues.
 Proof.
   intros Hc Hd Hn. unfold check_loaded in Hc.
   destruct (id_validator_init E L) as [I|]; cbn [bind] in Hc; [|discriminate].
   destruct (check_if_prerelease_version E warn L) as [pre|]; cbn [bind] in Hc; [|discriminate].
-  destruct (check_attributes E I warn L) as [at_|]; cbn [bind] in Hc; [|discriminate].
+  destruct (check_attributes fx E I warn L) as [at_|]; cbn [bind] in Hc; [|discriminate].
   inversion Hc; subst issues. apply in_or_app; right; apply in_or_app; right.
   unfold check_duplicate_names. apply in_flat_map. exists (sec, d). split; [apply in_dups_reordered; exact Hd|].
   apply in_flat_map. exists (name, ents). split; [exact Hn|].
@@ -438,10 +441,10 @@ Proof.
 Qed.
 
 (* tag_is_deprecated_check: the deprecatedFrom value is unknown, or not older than the schema *)
-Lemma deprecated_unknown_fires E L e a s ks :
+Lemma deprecated_unknown_fires fx E L e a s ks :
   dict_get a (le_attrs e) = Some (VStr s) ->
-  ~ In s (versions_for E (entry_library L e)) ->
-  tag_is_deprecated_check E L e a = Ok ks -> In K_SCHEMA_DEPRECATED_INVALID ks.
+  ~ In s (versions_for E (entry_library fx L e)) ->
+  tag_is_deprecated_check fx E L e a = Ok ks -> In K_SCHEMA_DEPRECATED_INVALID ks.
 Proof.
   intros Hd Hn. unfold tag_is_deprecated_check. rewrite Hd.
   cbv zeta.
@@ -449,27 +452,27 @@ Proof.
   left; reflexivity.
 Qed.
 
-Lemma deprecated_not_older_fires E L e a s lv v1 v2 ks :
+Lemma deprecated_not_older_fires fx E L e a s lv v1 v2 ks :
   dict_get a (le_attrs e) = Some (VStr s) ->
-  schema_version_for_library L (entry_library L e) = Some lv -> lv <> [] ->
+  schema_version_for_library L (entry_library fx L e) = Some lv -> lv <> [] ->
   parse_version lv = Ok v1 -> parse_version s = Ok v2 -> version_leb v1 v2 = true ->
-  tag_is_deprecated_check E L e a = Ok ks -> In K_SCHEMA_DEPRECATED_INVALID ks.
+  tag_is_deprecated_check fx E L e a = Ok ks -> In K_SCHEMA_DEPRECATED_INVALID ks.
 Proof.
   intros Hd Hl Hne P1 P2 Hle. unfold tag_is_deprecated_check. rewrite Hd.
   cbv zeta.
-  destruct (negb (mem_str s (versions_for E (entry_library L e)))).
+  destruct (negb (mem_str s (versions_for E (entry_library fx L e)))).
   - cbn [bind]. intros H; inversion H; subst. left; reflexivity.
   - rewrite Hl. destruct lv as [|c lv']; [congruence|]. rewrite P1, P2. cbn [bind]. rewrite Hle. cbn [bind].
     intros H; inversion H; subst. left; reflexivity.
 Qed.
 
 (* the rule is silent about the value when the version is known and older *)
-Lemma deprecated_ok_silent E L e a s lv v1 v2 ks :
+Lemma deprecated_ok_silent fx E L e a s lv v1 v2 ks :
   dict_get a (le_attrs e) = Some (VStr s) ->
-  In s (versions_for E (entry_library L e)) ->
-  schema_version_for_library L (entry_library L e) = Some lv -> lv <> [] ->
+  In s (versions_for E (entry_library fx L e)) ->
+  schema_version_for_library L (entry_library fx L e) = Some lv -> lv <> [] ->
   parse_version lv = Ok v1 -> parse_version s = Ok v2 -> version_leb v1 v2 = false ->
-  tag_is_deprecated_check E L e a = Ok ks -> ~ In K_SCHEMA_DEPRECATED_INVALID ks.
+  tag_is_deprecated_check fx E L e a = Ok ks -> ~ In K_SCHEMA_DEPRECATED_INVALID ks.
 Proof.
   intros Hd Hin Hl Hne P1 P2 Hle. unfold tag_is_deprecated_check. rewrite Hd.
   cbv zeta.
@@ -482,12 +485,12 @@ Proof.
 Qed.
 
 (* verify_tag_id: out of the library's range *)
-Lemma hed_id_range_fires I L e a s nid k lo hi ks :
+Lemma hed_id_range_fires fx I L e a s nid k lo hi ks :
   dict_get a (le_attrs e) = Some (VStr s) ->
   parse_int (remove_prefix s hed_prefix) = Some nid ->
-  tag_library_key e = Some k -> dict_get k (id_data I) = Some (lo, hi) ->
+  tag_library_key fx e = Some k -> dict_get k (id_data I) = Some (lo, hi) ->
   (nid < lo \/ hi < nid)%Z ->
-  verify_tag_id I L e a = Ok ks -> In K_SCHEMA_HED_ID_INVALID ks.
+  verify_tag_id fx I L e a = Ok ks -> In K_SCHEMA_HED_ID_INVALID ks.
 Proof.
   intros Hd Hp Hk Hr Hout. unfold verify_tag_id. cbv zeta. rewrite Hk.
   match goal with |- bind ?x _ = _ -> _ => destruct x as [old|] end; cbn [bind]; [|discriminate].
@@ -497,10 +500,10 @@ Proof.
   rewrite Hb. left; reflexivity.
 Qed.
 
-Lemma hed_id_not_a_number_fires I L e a s ks :
+Lemma hed_id_not_a_number_fires fx I L e a s ks :
   dict_get a (le_attrs e) = Some (VStr s) ->
   parse_int (remove_prefix s hed_prefix) = None ->
-  verify_tag_id I L e a = Ok ks -> In K_SCHEMA_HED_ID_INVALID ks.
+  verify_tag_id fx I L e a = Ok ks -> In K_SCHEMA_HED_ID_INVALID ks.
 Proof.
   intros Hd Hp. unfold verify_tag_id. cbv zeta.
   match goal with |- bind ?x _ = _ -> _ => destruct x as [old|] end; cbn [bind]; [|discriminate].
@@ -508,14 +511,14 @@ Proof.
 Qed.
 
 (* a changed hedId: the previous version records a different (non-zero) number for the entry *)
-Lemma hed_id_changed_fires I L e a s nid k Lp oe os oid ks :
+Lemma hed_id_changed_fires fx I L e a s nid k Lp oe os oid ks :
   dict_get a (le_attrs e) = Some (VStr s) ->
   parse_int (remove_prefix s hed_prefix) = Some nid ->
-  tag_library_key e = Some k -> dict_get k (id_prev I) = Some Lp ->
+  tag_library_key fx e = Some k -> dict_get k (id_prev I) = Some Lp ->
   lookup Lp (le_sec e) (le_name e) = Some oe ->
   dict_get HedKey_HedID (le_attrs oe) = Some (VStr os) ->
   parse_int (remove_prefix os hed_prefix) = Some oid -> oid <> 0%Z -> oid <> nid ->
-  verify_tag_id I L e a = Ok ks -> In K_SCHEMA_HED_ID_INVALID ks.
+  verify_tag_id fx I L e a = Ok ks -> In K_SCHEMA_HED_ID_INVALID ks.
 Proof.
   intros Hd Hp Hk Hprev Hl Ho Hop Hz Hne. unfold verify_tag_id. cbv zeta.
   rewrite Hk, Hprev, Hl, Ho, Hop. cbn [bind]. rewrite Hd, Hp.
@@ -523,10 +526,228 @@ Proof.
   apply Z.eqb_neq in Hz. apply Z.eqb_neq in Hne. rewrite Hz, Hne. left; reflexivity.
 Qed.
 
+(* ------------------------------------------------------------------ library id ranges of the validator *)
+
+Lemma str_eqb_refl (a : str) : str_eqb a a = true.
+Proof. apply str_eqb_spec; reflexivity. Qed.
+
+Lemma str_eqb_false_neq (a b : str) : str_eqb a b = false <-> a <> b.
+Proof.
+  split.
+  - intros H Heq. subst. rewrite str_eqb_refl in H. discriminate.
+  - intros H. destruct (str_eqb a b) eqn:E; [|reflexivity]. apply str_eqb_spec in E. contradiction.
+Qed.
+
+Lemma dict_get_set_same {V} (k : str) (v : V) (d : list (str * V)) : dict_get k (dict_set k v d) = Some v.
+Proof.
+  induction d as [|[k' v'] d IH]; cbn.
+  - now rewrite str_eqb_refl.
+  - destruct (str_eqb k k') eqn:E; cbn; rewrite E; [reflexivity|exact IH].
+Qed.
+
+Lemma dict_get_set_other {V} (k k0 : str) (v : V) (d : list (str * V)) :
+  k <> k0 -> dict_get k (dict_set k0 v d) = dict_get k d.
+Proof.
+  intros Hne. induction d as [|[k' v'] d IH]; cbn.
+  - apply str_eqb_false_neq in Hne. now rewrite Hne.
+  - destruct (str_eqb k0 k') eqn:E; cbn.
+    + apply str_eqb_spec in E; subst k'. apply str_eqb_false_neq in Hne. now rewrite Hne.
+    + destruct (str_eqb k k'); [reflexivity|exact IH].
+Qed.
+
+Lemma add_range_get E k lib r ld :
+  dict_get k (env_ranges E) = Some r ->
+  (k = lib \/ dict_get k ld = Some r) -> dict_get k (add_range E lib ld) = Some r.
+Proof.
+  intros Hr H. unfold add_range. destruct (str_eqb k lib) eqn:Ek.
+  - apply str_eqb_spec in Ek; subst lib. rewrite Hr. apply dict_get_set_same.
+  - apply str_eqb_false_neq in Ek. destruct H as [H|H]; [contradiction|].
+    destruct (dict_get lib (env_ranges E)); [rewrite dict_get_set_other by exact Ek|]; exact H.
+Qed.
+
+Lemma fold_id_step_exn E l e : fold_left (id_step E) l (Exn e) = Exn e.
+Proof. induction l as [|x l IH]; [reflexivity|]. cbn. exact IH. Qed.
+
+Lemma fold_id_step_ranges E l pv0 ld0 pv ld k r :
+  fold_left (id_step E) l (Ok (pv0, ld0)) = Ok (pv, ld) ->
+  dict_get k (env_ranges E) = Some r ->
+  (In k (map snd l) \/ dict_get k ld0 = Some r) -> dict_get k ld = Some r.
+Proof.
+  revert pv0 ld0. induction l as [|[ver lib] l IH]; intros pv0 ld0 H Hr Hin.
+  - cbn in H. inversion H; subst. destruct Hin as [[]|Hin]; exact Hin.
+  - cbn [fold_left] in H. unfold id_step at 2 in H. cbn [bind fst snd] in H.
+    destruct (get_previous_version E ver lib) as [p|e]; cbn [bind] in H;
+      [|rewrite fold_id_step_exn in H; discriminate].
+    eapply IH; [exact H|exact Hr|].
+    destruct Hin as [[Hk|Hk]|Hk].
+    + right. apply add_range_get; [exact Hr|left; symmetry; exact Hk].
+    + left; exact Hk.
+    + destruct (str_eqb k lib) eqn:Ek.
+      * right. apply add_range_get; [exact Hr|left]. apply str_eqb_spec; exact Ek.
+      * right. apply add_range_get; [exact Hr|right; exact Hk].
+Qed.
+
+(* the validator knows the id range of every library named in the schema header *)
+Lemma id_data_of_init E L I k r :
+  id_validator_init E L = Ok I ->
+  In k (map snd (zip_str (split_comma (l_version L)) (split_comma (l_library L)))) ->
+  dict_get k (env_ranges E) = Some r ->
+  dict_get k (id_data I) = Some r.
+Proof.
+  intros H Hin Hr. unfold id_validator_init in H.
+  destruct (fold_left (id_step E) _ (Ok ([], []))) as [[pv ld]|] eqn:Hf; cbn [bind] in H; [|discriminate].
+  pose proof (fold_id_step_ranges _ _ _ _ _ _ _ _ Hf Hr (or_introl Hin)) as Hld.
+  destruct (id_standard_step E L (pv, ld)) as [[pv2 ld2]|] eqn:Hs; cbn [bind] in H; [|discriminate].
+  match type of H with bind ?x _ = _ => destruct x as [prev|] end; cbn [bind] in H; [|discriminate].
+  inversion H; subst I. cbn [id_data snd].
+  unfold id_standard_step in Hs. cbn [fst snd] in Hs.
+  destruct (dict_get [] pv); [inversion Hs; subst; exact Hld|].
+  destruct (l_with_standard L); [inversion Hs; subst; exact Hld|].
+  destruct (get_previous_version E _ []); cbn [bind] in Hs; [|discriminate].
+  inversion Hs; subst. apply add_range_get; [exact Hr|right; exact Hld].
+Qed.
+
+(* a schema with a single library name (every bundled schema): the header's library has its range *)
+Lemma id_data_single_library E L I r :
+  id_validator_init E L = Ok I ->
+  split_comma (l_library L) = [l_library L] -> split_comma (l_version L) = [l_version L] ->
+  dict_get (l_library L) (env_ranges E) = Some r ->
+  dict_get (l_library L) (id_data I) = Some r.
+Proof.
+  intros H Hl Hv Hr. eapply id_data_of_init; [exact H| |exact Hr].
+  rewrite Hl, Hv. cbn. left; reflexivity.
+Qed.
+
+(* ------------------------------------------------------------------ when the check does not raise *)
+
+Lemma concat_mapM_total {A B} (f : A -> res (list B)) (l : list A) :
+  (forall x, In x l -> exists a, f x = Ok a) -> exists r, concat_mapM f l = Ok r.
+Proof.
+  induction l as [|x l IH]; intros H; [exists []; reflexivity|].
+  destruct (H x (or_introl eq_refl)) as (a & Ha).
+  destruct IH as (b & Hb); [intros y Hy; apply H; right; exact Hy|].
+  exists (a ++ b). cbn [concat_mapM]. rewrite Ha; cbn [bind]. rewrite Hb; reflexivity.
+Qed.
+
+(* the semantic versions the deprecation rule compares can be read *)
+Definition versions_parse (fx : fixes) (E : env) (L : lschema) (e : lentry) (a : str) : Prop :=
+  forall s lv, dict_get a (le_attrs e) = Some (VStr s) ->
+               In s (versions_for E (entry_library fx L e)) ->
+               schema_version_for_library L (entry_library fx L e) = Some lv -> lv <> [] ->
+               (exists v1, parse_version lv = Ok v1) /\ (exists v2, parse_version s = Ok v2).
+
+(* the previous version of the schema does not record a value-less hedId for the entry *)
+Definition old_id_has_value (fx : fixes) (I : idenv) (e : lentry) : Prop :=
+  forall k Lp oe, tag_library_key fx e = Some k -> dict_get k (id_prev I) = Some Lp ->
+                  lookup Lp (le_sec e) (le_name e) = Some oe ->
+                  dict_get HedKey_HedID (le_attrs oe) <> Some VFlag.
+
+(* what each rule needs of the entry it is run on: its entry class and a string (not value-less) value *)
+Definition applicable (fx : fixes) (E : env) (I : idenv) (L : lschema) (v : validator) (e : lentry) (a : str)
+  : Prop :=
+  match v with
+  | V_tag_is_placeholder_check => le_sec e = SecTags
+  | V_item_exists_check sec =>
+      dict_get a (le_attrs e) <> Some VFlag /\ (sec = SecTags \/ sec = SecUnitClasses \/ sec = SecValueClasses)
+  | V_tag_is_deprecated_check => versions_parse fx E L e a
+  | V_unit_exists => le_sec e = SecUnitClasses /\ dict_get a (le_attrs e) <> Some VFlag
+  | V_allowed_characters_check => dict_get a (le_attrs e) <> Some VFlag
+  | V_verify_tag_id => dict_get a (le_attrs e) <> Some VFlag /\ old_id_has_value fx I e
+  | V_tag_exists_base_schema_check => dict_get a (le_attrs e) = None
+  | V_conversion_factor | V_in_library_check | V_attribute_is_deprecated | V_is_numeric_value => True
+  end.
+
+Lemma applicable_total fx E I L v e a :
+  applicable fx E I L v e a -> exists ks, run_validator fx E I L v e a = Ok ks.
+Proof.
+  destruct v; cbn [applicable run_validator]; intros H.
+  - unfold tag_is_placeholder_check. rewrite H. eexists; reflexivity.
+  - destruct H as [Hv Hs]. unfold item_exists_check.
+    destruct (dict_get a (le_attrs e)) as [[|s]|]; [congruence| |];
+      (apply concat_mapM_total; intros item _; destruct item as [|c it]; [eexists; reflexivity|];
+       destruct Hs as [->|[->| ->]];
+       (destruct (lookup L _ (c :: it)) as [ie|]; [|eexists; reflexivity];
+        destruct (has_attr ie HedKey_DeprecatedFrom && negb (has_attr e HedKey_DeprecatedFrom)); eexists; reflexivity)).
+  - unfold tag_is_deprecated_check. cbv zeta.
+    destruct (dict_get a (le_attrs e)) as [[|s]|] eqn:Hd; cbn [bind]; try (eexists; reflexivity).
+    destruct (mem_str s (versions_for E (entry_library fx L e))) eqn:M; cbn [negb bind]; [|eexists; reflexivity].
+    destruct (schema_version_for_library L (entry_library fx L e)) as [lv|] eqn:Hl; cbn [bind]; [|eexists; reflexivity].
+    destruct lv as [|c lv']; cbn [bind]; [eexists; reflexivity|].
+    apply mem_str_true_iff in M.
+    destruct (H s (c :: lv') Hd M Hl ltac:(discriminate)) as ((v1 & P1) & (v2 & P2)).
+    rewrite P1, P2; cbn [bind]. destruct (version_leb v1 v2); cbn [bind]; eexists; reflexivity.
+  - destruct H as [Hs Hv]. unfold unit_exists. rewrite Hs.
+    destruct (dict_get a (le_attrs e)) as [[|u]|]; [congruence| |eexists; reflexivity].
+    destruct (get_derivative_unit_entry L e u) as [ue|].
+    + destruct (has_attr ue HedKey_DeprecatedFrom && negb (has_attr e HedKey_DeprecatedFrom)); eexists; reflexivity.
+    + destruct u; eexists; reflexivity.
+  - destruct (conversion_factor_spec L e a) as (ks & Hk & _). exists ks; exact Hk.
+  - unfold allowed_characters_check. destruct (dict_get a (le_attrs e)) as [[|s]|]; [congruence| |]; eexists; reflexivity.
+  - destruct (in_library_check_spec L e a) as (ks & Hk & _). exists ks; exact Hk.
+  - unfold attribute_is_deprecated. destruct (lookup L _ a) as [ae|]; [|eexists; reflexivity].
+    destruct (has_attr ae HedKey_DeprecatedFrom && negb (has_attr e HedKey_DeprecatedFrom)); eexists; reflexivity.
+  - unfold is_numeric_value. destruct (dict_get a (le_attrs e)) as [[|s]|]; [eexists; reflexivity| |];
+      destruct (parse_float _); eexists; reflexivity.
+  - destruct H as [Hv Ho]. unfold verify_tag_id. cbv zeta.
+    assert (Hold : exists o, (match (match (match tag_library_key fx e with
+                                           | Some k => dict_get k (id_prev I) | None => None end) with
+                                    | Some Lp => match lookup Lp (le_sec e) (le_name e) with
+                                                 | Some oe => dict_get HedKey_HedID (le_attrs oe)
+                                                 | None => None end
+                                    | None => None end) with
+                             | None => Ok None
+                             | Some VFlag => Exn AttributeError
+                             | Some (VStr s) => match parse_int (remove_prefix s hed_prefix) with
+                                                | Some z => Ok (Some (IdInt z))
+                                                | None => Ok (Some IdRaw) end
+                             end) = Ok o).
+    { destruct (tag_library_key fx e) as [k|] eqn:Hk; [|eexists; reflexivity].
+      destruct (dict_get k (id_prev I)) as [Lp|] eqn:Hp; [|eexists; reflexivity].
+      destruct (lookup Lp (le_sec e) (le_name e)) as [oe|] eqn:Hl; [|eexists; reflexivity].
+      specialize (Ho k Lp oe Hk Hp Hl).
+      destruct (dict_get HedKey_HedID (le_attrs oe)) as [[|s]|]; [congruence| |eexists; reflexivity].
+      destruct (parse_int _); eexists; reflexivity. }
+    destruct Hold as (o & Hold). rewrite Hold. cbn [bind].
+    destruct (dict_get a (le_attrs e)) as [[|s]|]; [congruence| |eexists; reflexivity].
+    destruct (parse_int _); eexists; reflexivity.
+  - unfold tag_exists_base_schema_check. rewrite H. eexists; reflexivity.
+Qed.
+
+(* every rule that is run meets an entry of the class and a value of the type it was written for *)
+Definition well_valued (fx : fixes) (E : env) (I : idenv) (L : lschema) : Prop :=
+  forall sec e a val v,
+    In e (section_values L sec) -> In (a, val) (le_attrs e) -> skip_attribute fx e a = false ->
+    In v (get_validators L a) -> applicable fx E I L v e a.
+
+Lemma check_attributes_total fx E I warn L :
+  well_valued fx E I L -> exists r, check_attributes fx E I warn L = Ok r.
+Proof.
+  intros W. unfold check_attributes. apply concat_mapM_total. intros sec _.
+  apply concat_mapM_total. intros e He. unfold check_tag_entry_attributes.
+  assert (T : exists r, concat_mapM (fun kv => if skip_attribute fx e (fst kv) then Ok []
+                                                else run_validators fx E I warn L e (fst kv) (get_validators L (fst kv)))
+                                     (le_attrs e) = Ok r).
+  { apply concat_mapM_total. intros [a val] Hin. cbn [fst].
+    destruct (skip_attribute fx e a) eqn:Hsk; [eexists; reflexivity|].
+    unfold run_validators. apply concat_mapM_total. intros v Hv.
+    destruct (applicable_total fx E I L v e a (W sec e a val v He Hin Hsk Hv)) as (ks & Hk).
+    rewrite Hk. cbn [bind]. eexists; reflexivity. }
+  destruct T as (r & Hr). rewrite Hr. cbn [bind]. eexists; reflexivity.
+Qed.
+
+Lemma check_loaded_total fx E L I pre :
+  id_validator_init E L = Ok I -> check_if_prerelease_version E true L = Ok pre ->
+  well_valued fx E I L -> exists issues, check_loaded fx E true L = Ok issues.
+Proof.
+  intros HI Hp W. unfold check_loaded. rewrite HI; cbn [bind]. rewrite Hp; cbn [bind].
+  destruct (check_attributes_total fx E I true L W) as (r & Hr). rewrite Hr; cbn [bind]. eexists; reflexivity.
+Qed.
+
 (* ------------------------------------------------------------------ seeded faults are reported
    Each lemma: in ANY loaded schema L whose check does not raise, an entry e that the check visits
    (any section, any position) and that carries the fault is reported with the kind's code, at that
-   entry and attribute.  [codes] is what the caller of check_compliance sees. *)
+   entry and attribute.  [codes] is what the caller of check_compliance sees.  [skip_attribute fx e a
+   = false]: the attribute is declared for the section (otherwise the fault IS the undeclared attribute). *)
 
 Definition codes (l : list issue) : list str := map i_code l.
 
@@ -537,24 +758,24 @@ Proof. intros H. unfold codes. apply in_map_iff. eexists; split; [|exact H]. ref
 Ltac in_tab := vm_compute; repeat ((left; reflexivity) || right).
 
 (* 1. duplicated node name *)
-Lemma seeded_duplicate E warn L issues sec d name ents :
-  check_loaded E warn L = Ok issues ->
+Lemma seeded_duplicate fx E warn L issues sec d name ents :
+  check_loaded fx E warn L = Ok issues ->
   In (sec, d) (l_dups L) -> In (name, ents) d ->
   (forall x y, In x ents -> In y ents -> snd x = snd y) ->
   In (kind_code K_SCHEMA_DUPLICATE_NODE) (codes (filter is_error issues)).
 Proof.
-  intros Hc Hd Hn Hu. pose proof (duplicate_reported _ _ _ _ _ _ _ _ Hc Hd Hn) as H.
+  intros Hc Hd Hn Hu. pose proof (duplicate_reported _ _ _ _ _ _ _ _ _ Hc Hd Hn) as H.
   rewrite (dup_kind_uniform _ Hu) in H.
   apply (in_codes _ SevError None None None). apply filter_In. split; [exact H|reflexivity].
 Qed.
 
 (* 2. attribute that is not declared for the section *)
-Lemma seeded_undeclared E warn L issues sec e a :
-  check_loaded E warn L = Ok issues ->
+Lemma seeded_undeclared fx E warn L issues sec e a :
+  check_loaded fx E warn L = Ok issues ->
   In e (section_values L sec) -> In a (le_unknown e) ->
   In (kind_code K_SCHEMA_ATTRIBUTE_INVALID) (codes (filter is_error issues)).
 Proof.
-  intros Hc He Ha. pose proof (unknown_attribute_reported _ _ _ _ _ _ _ Hc He Ha) as H.
+  intros Hc He Ha. pose proof (unknown_attribute_reported _ _ _ _ _ _ _ _ Hc He Ha) as H.
   eapply in_codes. apply filter_In. split; [exact H|reflexivity].
 Qed.
 
@@ -583,32 +804,32 @@ Proof.
   destruct H as [[-> ->]|[[-> ->]|[-> ->]]]; in_tab.
 Qed.
 
-Lemma seeded_unknown_item E L issues sec e a s tsec item :
-  check_loaded E true L = Ok issues ->
+Lemma seeded_unknown_item fx E L issues sec e a s tsec item :
+  check_loaded fx E true L = Ok issues ->
   In e (section_values L sec) ->
-  dict_get a (le_attrs e) = Some (VStr s) ->
+  dict_get a (le_attrs e) = Some (VStr s) -> skip_attribute fx e a = false ->
   In (V_item_exists_check tsec) (get_validators L a) ->
   (tsec = SecTags \/ tsec = SecUnitClasses \/ tsec = SecValueClasses) ->
   In item (split_comma s) -> item <> [] -> lookup L tsec item = None ->
   In (kind_code K_SCHEMA_GENERIC_ATTRIBUTE_VALUE_INVALID) (codes issues).
 Proof.
-  intros Hc He Ha Hv Ht Hi Hne Hl. eapply in_codes.
+  intros Hc He Ha Hsk Hv Ht Hi Hne Hl. eapply in_codes.
   eapply validator_issue_reported; try eassumption.
   intros I ks _ Hr. cbn [run_validator] in Hr.
   apply (item_exists_spec _ _ _ _ _ _ Ht Ha Hr). exists item. tauto.
 Qed.
 
 (* 4. class attributes on a node that is not a '#' placeholder *)
-Lemma seeded_class_on_non_placeholder E L issues sec e a val :
-  check_loaded E true L = Ok issues ->
+Lemma seeded_class_on_non_placeholder fx E L issues sec e a val :
+  check_loaded fx E true L = Ok issues ->
   In e (section_values L sec) -> le_sec e = SecTags ->
-  dict_get a (le_attrs e) = Some val ->
+  dict_get a (le_attrs e) = Some val -> skip_attribute fx e a = false ->
   a = HedKey_UnitClass \/ a = HedKey_ValueClass \/ a = HedKey_TakesValue ->
   ends_with slash_hash (le_name e) = false ->
   In (kind_code K_SCHEMA_NON_PLACEHOLDER_HAS_CLASS) (codes issues).
 Proof.
-  intros Hc He Hs Ha Hk Hn. eapply in_codes.
-  eapply (validator_issue_reported _ _ _ _ _ _ _ V_tag_is_placeholder_check); try eassumption.
+  intros Hc He Hs Ha Hsk Hk Hn. eapply in_codes.
+  eapply (validator_issue_reported _ _ _ _ _ _ _ _ V_tag_is_placeholder_check); try eassumption.
   - destruct Hk as [-> |[-> | ->]]; apply table_both_in; in_tab.
   - intros I ks _ Hr. cbn [run_validator] in Hr.
     destruct (placeholder_spec L e a Hs) as (ks' & Hk' & Hiff). rewrite Hk' in Hr. inversion Hr; subst.
@@ -619,42 +840,46 @@ Qed.
 Lemma deprecated_validator_in L : In V_tag_is_deprecated_check (get_validators L HedKey_DeprecatedFrom).
 Proof. apply table_both_in; in_tab. Qed.
 
-Lemma seeded_deprecated_unknown E L issues sec e s :
-  check_loaded E true L = Ok issues ->
+Lemma seeded_deprecated_unknown fx E L issues sec e s :
+  check_loaded fx E true L = Ok issues ->
   In e (section_values L sec) ->
   dict_get HedKey_DeprecatedFrom (le_attrs e) = Some (VStr s) ->
-  ~ In s (versions_for E (entry_library L e)) ->
+  skip_attribute fx e HedKey_DeprecatedFrom = false ->
+  ~ In s (versions_for E (entry_library fx L e)) ->
   In (kind_code K_SCHEMA_DEPRECATED_INVALID) (codes issues).
 Proof.
-  intros Hc He Ha Hn. eapply in_codes.
-  eapply (validator_issue_reported _ _ _ _ _ _ _ V_tag_is_deprecated_check); try eassumption.
+  intros Hc He Ha Hsk Hn. eapply in_codes.
+  eapply (validator_issue_reported _ _ _ _ _ _ _ _ V_tag_is_deprecated_check); try eassumption.
   - apply deprecated_validator_in.
   - intros I ks _ Hr. cbn [run_validator] in Hr. eapply deprecated_unknown_fires; eassumption.
 Qed.
 
-Lemma seeded_deprecated_not_older E L issues sec e s lv v1 v2 :
-  check_loaded E true L = Ok issues ->
+Lemma seeded_deprecated_not_older fx E L issues sec e s lv v1 v2 :
+  check_loaded fx E true L = Ok issues ->
   In e (section_values L sec) ->
   dict_get HedKey_DeprecatedFrom (le_attrs e) = Some (VStr s) ->
-  schema_version_for_library L (entry_library L e) = Some lv -> lv <> [] ->
+  skip_attribute fx e HedKey_DeprecatedFrom = false ->
+  schema_version_for_library L (entry_library fx L e) = Some lv -> lv <> [] ->
   parse_version lv = Ok v1 -> parse_version s = Ok v2 -> version_leb v1 v2 = true ->
   In (kind_code K_SCHEMA_DEPRECATED_INVALID) (codes issues).
 Proof.
-  intros Hc He Ha Hl Hne P1 P2 Hle. eapply in_codes.
-  eapply (validator_issue_reported _ _ _ _ _ _ _ V_tag_is_deprecated_check); try eassumption.
+  intros Hc He Ha Hsk Hl Hne P1 P2 Hle. eapply in_codes.
+  eapply (validator_issue_reported _ _ _ _ _ _ _ _ V_tag_is_deprecated_check); try eassumption.
   - apply deprecated_validator_in.
-  - intros I ks _ Hr. cbn [run_validator] in Hr. eapply deprecated_not_older_fires; eassumption.
+  - intros I ks _ Hr. cbn [run_validator] in Hr.
+    exact (deprecated_not_older_fires fx E L e _ s lv v1 v2 ks Ha Hl Hne P1 P2 Hle Hr).
 Qed.
 
 (* 6. non-positive conversion factor *)
-Lemma seeded_conversion_factor E L issues sec e val :
-  check_loaded E true L = Ok issues ->
+Lemma seeded_conversion_factor fx E L issues sec e val :
+  check_loaded fx E true L = Ok issues ->
   In e (section_values L sec) ->
-  dict_get HedKey_ConversionFactor (le_attrs e) = Some val -> bad_conversion_factor val ->
+  dict_get HedKey_ConversionFactor (le_attrs e) = Some val ->
+  skip_attribute fx e HedKey_ConversionFactor = false -> bad_conversion_factor val ->
   In (kind_code K_SCHEMA_CONVERSION_FACTOR_NOT_POSITIVE) (codes issues).
 Proof.
-  intros Hc He Ha Hb. eapply in_codes.
-  eapply (validator_issue_reported _ _ _ _ _ _ _ V_conversion_factor); try eassumption.
+  intros Hc He Ha Hsk Hb. eapply in_codes.
+  eapply (validator_issue_reported _ _ _ _ _ _ _ _ V_conversion_factor); try eassumption.
   - apply table_both_in; in_tab.
   - intros I ks _ Hr. cbn [run_validator] in Hr.
     destruct (conversion_factor_spec L e HedKey_ConversionFactor) as (ks' & Hk' & Hiff).
@@ -670,15 +895,15 @@ Lemma unit_validator_new L a ae pv :
   In V_unit_exists (get_validators L a).
 Proof. intros E Hl Hp. eapply range_validator_in; try eassumption. in_tab. Qed.
 
-Lemma seeded_default_units E L issues sec e a u :
-  check_loaded E true L = Ok issues ->
+Lemma seeded_default_units fx E L issues sec e a u :
+  check_loaded fx E true L = Ok issues ->
   In e (section_values L sec) -> le_sec e = SecUnitClasses ->
-  dict_get a (le_attrs e) = Some (VStr u) ->
+  dict_get a (le_attrs e) = Some (VStr u) -> skip_attribute fx e a = false ->
   In V_unit_exists (get_validators L a) ->
   u <> [] -> get_derivative_unit_entry L e u = None ->
   In (kind_code K_SCHEMA_DEFAULT_UNITS_INVALID) (codes issues).
 Proof.
-  intros Hc He Hs Ha Hv Hne Hg. eapply in_codes.
+  intros Hc He Hs Ha Hsk Hv Hne Hg. eapply in_codes.
   eapply validator_issue_reported; try eassumption.
   intros I ks _ Hr. cbn [run_validator] in Hr.
   destruct (unit_exists_spec L e a u Hs Ha) as (ks' & Hk' & Hiff). rewrite Hk' in Hr. inversion Hr; subst.
@@ -686,15 +911,16 @@ Proof.
 Qed.
 
 (* 8. unknown allowedCharacter value *)
-Lemma seeded_allowed_character E L issues sec e s c :
-  check_loaded E true L = Ok issues ->
+Lemma seeded_allowed_character fx E L issues sec e s c :
+  check_loaded fx E true L = Ok issues ->
   In e (section_values L sec) ->
   dict_get HedKey_AllowedCharacter (le_attrs e) = Some (VStr s) ->
+  skip_attribute fx e HedKey_AllowedCharacter = false ->
   In c (split_comma s) -> ~ In c character_type_names -> length c <> 1%nat ->
   In (kind_code K_SCHEMA_ALLOWED_CHARACTERS_INVALID) (codes issues).
 Proof.
-  intros Hc He Ha Hi Hn Hl. eapply in_codes.
-  eapply (validator_issue_reported _ _ _ _ _ _ _ V_allowed_characters_check); try eassumption.
+  intros Hc He Ha Hsk Hi Hn Hl. eapply in_codes.
+  eapply (validator_issue_reported _ _ _ _ _ _ _ _ V_allowed_characters_check); try eassumption.
   - apply table_both_in; in_tab.
   - intros I ks _ Hr. cbn [run_validator] in Hr.
     destruct (allowed_characters_spec L e _ s Ha) as (ks' & Hk' & Hiff). rewrite Hk' in Hr. inversion Hr; subst.
@@ -702,15 +928,16 @@ Proof.
 Qed.
 
 (* 9. foreign inLibrary name *)
-Lemma seeded_in_library E L issues sec e s :
-  check_loaded E true L = Ok issues ->
+Lemma seeded_in_library fx E L issues sec e s :
+  check_loaded fx E true L = Ok issues ->
   In e (section_values L sec) ->
   dict_get HedKey_InLibrary (le_attrs e) = Some (VStr s) ->
+  skip_attribute fx e HedKey_InLibrary = false ->
   ~ In s (split_comma (l_library L)) ->
   In (kind_code K_SCHEMA_IN_LIBRARY_INVALID) (codes issues).
 Proof.
-  intros Hc He Ha Hn. eapply in_codes.
-  eapply (validator_issue_reported _ _ _ _ _ _ _ V_in_library_check); try eassumption.
+  intros Hc He Ha Hsk Hn. eapply in_codes.
+  eapply (validator_issue_reported _ _ _ _ _ _ _ _ V_in_library_check); try eassumption.
   - apply table_both_in; in_tab.
   - intros I ks _ Hr. cbn [run_validator] in Hr.
     destruct (in_library_check_spec L e HedKey_InLibrary) as (ks' & Hk' & Hiff).
@@ -718,53 +945,259 @@ Proof.
 Qed.
 
 (* 10. hedId out of the library's range / changed with respect to the previous version (8.3 rule set) *)
-Lemma seeded_hed_id_range E L I issues sec e s nid k lo hi :
-  check_loaded E true L = Ok issues -> l_is83 L = true ->
+Lemma seeded_hed_id_range fx E L I issues sec e s nid k lo hi :
+  check_loaded fx E true L = Ok issues -> l_is83 L = true ->
   id_validator_init E L = Ok I ->
   In e (section_values L sec) ->
-  dict_get HedKey_HedID (le_attrs e) = Some (VStr s) ->
+  dict_get HedKey_HedID (le_attrs e) = Some (VStr s) -> skip_attribute fx e HedKey_HedID = false ->
   parse_int (remove_prefix s hed_prefix) = Some nid ->
-  tag_library_key e = Some k -> dict_get k (id_data I) = Some (lo, hi) ->
+  tag_library_key fx e = Some k -> dict_get k (id_data I) = Some (lo, hi) ->
   (nid < lo \/ hi < nid)%Z ->
   In (kind_code K_SCHEMA_HED_ID_INVALID) (codes issues).
 Proof.
-  intros Hc H83 HI He Ha Hp Hk Hr Hout. eapply in_codes.
-  eapply (validator_issue_reported _ _ _ _ _ _ _ V_verify_tag_id); try eassumption.
+  intros Hc H83 HI He Ha Hsk Hp Hk Hr Hout. eapply in_codes.
+  eapply (validator_issue_reported _ _ _ _ _ _ _ _ V_verify_tag_id); try eassumption.
   - apply hed_id_validator_in; exact H83.
   - intros I' ks HI' Hrun. rewrite HI in HI'. inversion HI'; subst I'. cbn [run_validator] in Hrun.
-    exact (hed_id_range_fires I L e _ s nid k lo hi ks Ha Hp Hk Hr Hout Hrun).
+    exact (hed_id_range_fires fx I L e _ s nid k lo hi ks Ha Hp Hk Hr Hout Hrun).
 Qed.
 
-Lemma seeded_hed_id_changed E L I issues sec e s nid k Lp oe os oid :
-  check_loaded E true L = Ok issues -> l_is83 L = true ->
+(* with the repair: a library entry -- nested or not -- whose OWN inLibrary value names a library of the
+   header that has an id range in library_data.json *)
+Lemma seeded_hed_id_range_own_library E L issues sec e s nid k lo hi :
+  check_loaded fixed_all E true L = Ok issues -> l_is83 L = true ->
+  In e (section_values L sec) ->
+  dict_get HedKey_HedID (le_attrs e) = Some (VStr s) -> skip_attribute fixed_all e HedKey_HedID = false ->
+  parse_int (remove_prefix s hed_prefix) = Some nid ->
+  dict_get HedKey_InLibrary (le_attrs e) = Some (VStr k) ->
+  In k (map snd (zip_str (split_comma (l_version L)) (split_comma (l_library L)))) ->
+  dict_get k (env_ranges E) = Some (lo, hi) ->
+  (nid < lo \/ hi < nid)%Z ->
+  In (kind_code K_SCHEMA_HED_ID_INVALID) (codes issues).
+Proof.
+  intros Hc H83 He Ha Hsk Hp Hlib Hin Hr Hout.
+  destruct (id_validator_init E L) as [I|] eqn:HI.
+  - eapply (seeded_hed_id_range fixed_all E L I); try eassumption.
+    + unfold tag_library_key, library_value. cbn [fx_own_library fixed_all]. rewrite Hlib. reflexivity.
+    + eapply id_data_of_init; eassumption.
+  - unfold check_loaded in Hc. rewrite HI in Hc. discriminate.
+Qed.
+
+Lemma seeded_hed_id_changed fx E L I issues sec e s nid k Lp oe os oid :
+  check_loaded fx E true L = Ok issues -> l_is83 L = true ->
   id_validator_init E L = Ok I ->
   In e (section_values L sec) ->
-  dict_get HedKey_HedID (le_attrs e) = Some (VStr s) ->
+  dict_get HedKey_HedID (le_attrs e) = Some (VStr s) -> skip_attribute fx e HedKey_HedID = false ->
   parse_int (remove_prefix s hed_prefix) = Some nid ->
-  tag_library_key e = Some k -> dict_get k (id_prev I) = Some Lp ->
+  tag_library_key fx e = Some k -> dict_get k (id_prev I) = Some Lp ->
   lookup Lp (le_sec e) (le_name e) = Some oe ->
   dict_get HedKey_HedID (le_attrs oe) = Some (VStr os) ->
   parse_int (remove_prefix os hed_prefix) = Some oid -> oid <> 0%Z -> oid <> nid ->
   In (kind_code K_SCHEMA_HED_ID_INVALID) (codes issues).
 Proof.
-  intros Hc H83 HI He Ha Hp Hk Hprev Hl Ho Hop Hz Hne. eapply in_codes.
-  eapply (validator_issue_reported _ _ _ _ _ _ _ V_verify_tag_id); try eassumption.
+  intros Hc H83 HI He Ha Hsk Hp Hk Hprev Hl Ho Hop Hz Hne. eapply in_codes.
+  eapply (validator_issue_reported _ _ _ _ _ _ _ _ V_verify_tag_id); try eassumption.
   - apply hed_id_validator_in; exact H83.
   - intros I' ks HI' Hrun. rewrite HI in HI'. inversion HI'; subst I'. cbn [run_validator] in Hrun.
-    exact (hed_id_changed_fires I L e _ s nid k Lp oe os oid ks Ha Hp Hk Hprev Hl Ho Hop Hz Hne Hrun).
+    exact (hed_id_changed_fires fx I L e _ s nid k Lp oe os oid ks Ha Hp Hk Hprev Hl Ho Hop Hz Hne Hrun).
 Qed.
 
 (* every finding of an attribute rule is a warning: none survives warnings off *)
-Lemma attribute_findings_are_warnings E I L e a vs l i :
-  run_validators E I true L e a vs = Ok l -> In i l -> i_sev i = SevWarning.
+Lemma attribute_findings_are_warnings fx E I L e a vs l i :
+  run_validators fx E I true L e a vs = Ok l -> In i l -> i_sev i = SevWarning.
 Proof.
   unfold run_validators. revert l. induction vs as [|v vs IH]; intros l H Hi.
   - inversion H; subst. destruct Hi.
   - cbn [concat_mapM] in H.
-    destruct (run_validator E I L v e a) as [ks|]; cbn [bind] in H; [|discriminate].
+    destruct (run_validator fx E I L v e a) as [ks|]; cbn [bind] in H; [|discriminate].
     match type of H with bind ?x _ = _ => destruct x as [b|] eqn:Hb end; cbn [bind] in H; [|discriminate].
     inversion H; subst l. apply in_app_or in Hi. destruct Hi as [Hi|Hi].
     + unfold add_context_and_filter in Hi. apply in_map_iff in Hi as (j & <- & Hj).
       apply in_map_iff in Hj as (k & <- & _). reflexivity.
     + eapply IH; [reflexivity|exact Hi].
+Qed.
+
+(* ------------------------------------------------------------------ the FULL seeded-fault statements for
+   the repaired code: no "does not raise" hypothesis.  What remains is stated by its cause:
+     - the environment can be read (HedIDValidator.__init__ and the prerelease check succeed: the versions in
+       the header and in the cache listing are MAJOR.MINOR.PATCH, the previous version can be loaded);
+     - [well_valued]: every DECLARED attribute of every visited entry meets rules written for its entry class
+       and value type (undeclared attributes are no longer looked at, so seeding one cannot break this). *)
+Definition checkable (E : env) (L : lschema) : Prop :=
+  exists I pre, id_validator_init E L = Ok I /\ check_if_prerelease_version E true L = Ok pre
+                /\ well_valued fixed_all E I L.
+
+Lemma full_of_partial E L (P : list issue -> Prop) :
+  checkable E L -> (forall issues, check_loaded fixed_all E true L = Ok issues -> P issues) ->
+  exists issues, check_loaded fixed_all E true L = Ok issues /\ P issues.
+Proof.
+  intros (I & pre & HI & Hp & W) H.
+  destruct (check_loaded_total fixed_all E L I pre HI Hp W) as (issues & Hc).
+  exists issues. split; [exact Hc|apply H; exact Hc].
+Qed.
+
+Lemma seeded_undeclared_full E L sec e a :
+  checkable E L -> In e (section_values L sec) -> In a (le_unknown e) ->
+  exists issues, check_loaded fixed_all E true L = Ok issues
+                 /\ In (kind_code K_SCHEMA_ATTRIBUTE_INVALID) (codes (filter is_error issues)).
+Proof. intros C He Ha. apply full_of_partial; [exact C|]. intros issues Hc. eapply seeded_undeclared; eassumption. Qed.
+
+Lemma seeded_duplicate_full E L sec d name ents :
+  checkable E L -> In (sec, d) (l_dups L) -> In (name, ents) d ->
+  (forall x y, In x ents -> In y ents -> snd x = snd y) ->
+  exists issues, check_loaded fixed_all E true L = Ok issues
+                 /\ In (kind_code K_SCHEMA_DUPLICATE_NODE) (codes (filter is_error issues)).
+Proof. intros C Hd Hn Hu. apply full_of_partial; [exact C|]. intros issues Hc. eapply seeded_duplicate; eassumption. Qed.
+
+Lemma seeded_in_library_full E L sec e s :
+  checkable E L -> In e (section_values L sec) ->
+  dict_get HedKey_InLibrary (le_attrs e) = Some (VStr s) ->
+  skip_attribute fixed_all e HedKey_InLibrary = false ->
+  ~ In s (split_comma (l_library L)) ->
+  exists issues, check_loaded fixed_all E true L = Ok issues
+                 /\ In (kind_code K_SCHEMA_IN_LIBRARY_INVALID) (codes issues).
+Proof. intros C He Ha Hsk Hn. apply full_of_partial; [exact C|]. intros issues Hc. eapply seeded_in_library; eassumption. Qed.
+
+Lemma seeded_conversion_factor_full E L sec e val :
+  checkable E L -> In e (section_values L sec) ->
+  dict_get HedKey_ConversionFactor (le_attrs e) = Some val ->
+  skip_attribute fixed_all e HedKey_ConversionFactor = false -> bad_conversion_factor val ->
+  exists issues, check_loaded fixed_all E true L = Ok issues
+                 /\ In (kind_code K_SCHEMA_CONVERSION_FACTOR_NOT_POSITIVE) (codes issues).
+Proof. intros C He Ha Hsk Hb. apply full_of_partial; [exact C|]. intros issues Hc. eapply seeded_conversion_factor; eassumption. Qed.
+
+Lemma seeded_class_on_non_placeholder_full E L sec e a val :
+  checkable E L -> In e (section_values L sec) -> le_sec e = SecTags ->
+  dict_get a (le_attrs e) = Some val -> skip_attribute fixed_all e a = false ->
+  a = HedKey_UnitClass \/ a = HedKey_ValueClass \/ a = HedKey_TakesValue ->
+  ends_with slash_hash (le_name e) = false ->
+  exists issues, check_loaded fixed_all E true L = Ok issues
+                 /\ In (kind_code K_SCHEMA_NON_PLACEHOLDER_HAS_CLASS) (codes issues).
+Proof.
+  intros C He Hs Ha Hsk Hk Hn. apply full_of_partial; [exact C|]. intros issues Hc.
+  eapply seeded_class_on_non_placeholder; eassumption.
+Qed.
+
+Lemma seeded_unknown_item_full E L sec e a s tsec item :
+  checkable E L -> In e (section_values L sec) ->
+  dict_get a (le_attrs e) = Some (VStr s) -> skip_attribute fixed_all e a = false ->
+  In (V_item_exists_check tsec) (get_validators L a) ->
+  (tsec = SecTags \/ tsec = SecUnitClasses \/ tsec = SecValueClasses) ->
+  In item (split_comma s) -> item <> [] -> lookup L tsec item = None ->
+  exists issues, check_loaded fixed_all E true L = Ok issues
+                 /\ In (kind_code K_SCHEMA_GENERIC_ATTRIBUTE_VALUE_INVALID) (codes issues).
+Proof.
+  intros C He Ha Hsk Hv Ht Hi Hne Hl. apply full_of_partial; [exact C|]. intros issues Hc.
+  eapply seeded_unknown_item; eassumption.
+Qed.
+
+Lemma seeded_deprecated_unknown_full E L sec e s :
+  checkable E L -> In e (section_values L sec) ->
+  dict_get HedKey_DeprecatedFrom (le_attrs e) = Some (VStr s) ->
+  skip_attribute fixed_all e HedKey_DeprecatedFrom = false ->
+  ~ In s (versions_for E (entry_library fixed_all L e)) ->
+  exists issues, check_loaded fixed_all E true L = Ok issues
+                 /\ In (kind_code K_SCHEMA_DEPRECATED_INVALID) (codes issues).
+Proof.
+  intros C He Ha Hsk Hn. apply full_of_partial; [exact C|]. intros issues Hc.
+  eapply seeded_deprecated_unknown; eassumption.
+Qed.
+
+Lemma seeded_deprecated_not_older_full E L sec e s lv v1 v2 :
+  checkable E L -> In e (section_values L sec) ->
+  dict_get HedKey_DeprecatedFrom (le_attrs e) = Some (VStr s) ->
+  skip_attribute fixed_all e HedKey_DeprecatedFrom = false ->
+  schema_version_for_library L (entry_library fixed_all L e) = Some lv -> lv <> [] ->
+  parse_version lv = Ok v1 -> parse_version s = Ok v2 -> version_leb v1 v2 = true ->
+  exists issues, check_loaded fixed_all E true L = Ok issues
+                 /\ In (kind_code K_SCHEMA_DEPRECATED_INVALID) (codes issues).
+Proof.
+  intros C He Ha Hsk Hl Hne P1 P2 Hle. apply full_of_partial; [exact C|]. intros issues Hc.
+  eapply seeded_deprecated_not_older; eassumption.
+Qed.
+
+Lemma seeded_default_units_full E L sec e a u :
+  checkable E L -> In e (section_values L sec) -> le_sec e = SecUnitClasses ->
+  dict_get a (le_attrs e) = Some (VStr u) -> skip_attribute fixed_all e a = false ->
+  In V_unit_exists (get_validators L a) ->
+  u <> [] -> get_derivative_unit_entry L e u = None ->
+  exists issues, check_loaded fixed_all E true L = Ok issues
+                 /\ In (kind_code K_SCHEMA_DEFAULT_UNITS_INVALID) (codes issues).
+Proof.
+  intros C He Hs Ha Hsk Hv Hne Hg. apply full_of_partial; [exact C|]. intros issues Hc.
+  eapply seeded_default_units; eassumption.
+Qed.
+
+Lemma seeded_allowed_character_full E L sec e s c :
+  checkable E L -> In e (section_values L sec) ->
+  dict_get HedKey_AllowedCharacter (le_attrs e) = Some (VStr s) ->
+  skip_attribute fixed_all e HedKey_AllowedCharacter = false ->
+  In c (split_comma s) -> ~ In c character_type_names -> length c <> 1%nat ->
+  exists issues, check_loaded fixed_all E true L = Ok issues
+                 /\ In (kind_code K_SCHEMA_ALLOWED_CHARACTERS_INVALID) (codes issues).
+Proof.
+  intros C He Ha Hsk Hi Hn Hl. apply full_of_partial; [exact C|]. intros issues Hc.
+  eapply seeded_allowed_character; eassumption.
+Qed.
+
+Lemma seeded_hed_id_range_full E L sec e s nid k lo hi :
+  checkable E L -> l_is83 L = true -> In e (section_values L sec) ->
+  dict_get HedKey_HedID (le_attrs e) = Some (VStr s) -> skip_attribute fixed_all e HedKey_HedID = false ->
+  parse_int (remove_prefix s hed_prefix) = Some nid ->
+  dict_get HedKey_InLibrary (le_attrs e) = Some (VStr k) ->
+  In k (map snd (zip_str (split_comma (l_version L)) (split_comma (l_library L)))) ->
+  dict_get k (env_ranges E) = Some (lo, hi) ->
+  (nid < lo \/ hi < nid)%Z ->
+  exists issues, check_loaded fixed_all E true L = Ok issues
+                 /\ In (kind_code K_SCHEMA_HED_ID_INVALID) (codes issues).
+Proof.
+  intros C H83 He Ha Hsk Hp Hlib Hin Hr Hout. apply full_of_partial; [exact C|]. intros issues Hc.
+  eapply seeded_hed_id_range_own_library; eassumption.
+Qed.
+
+Lemma seeded_hed_id_changed_full E L I sec e s nid k Lp oe os oid :
+  checkable E L -> l_is83 L = true -> id_validator_init E L = Ok I ->
+  In e (section_values L sec) ->
+  dict_get HedKey_HedID (le_attrs e) = Some (VStr s) -> skip_attribute fixed_all e HedKey_HedID = false ->
+  parse_int (remove_prefix s hed_prefix) = Some nid ->
+  tag_library_key fixed_all e = Some k -> dict_get k (id_prev I) = Some Lp ->
+  lookup Lp (le_sec e) (le_name e) = Some oe ->
+  dict_get HedKey_HedID (le_attrs oe) = Some (VStr os) ->
+  parse_int (remove_prefix os hed_prefix) = Some oid -> oid <> 0%Z -> oid <> nid ->
+  exists issues, check_loaded fixed_all E true L = Ok issues
+                 /\ In (kind_code K_SCHEMA_HED_ID_INVALID) (codes issues).
+Proof.
+  intros C H83 HI He Ha Hsk Hp Hk Hprev Hl Ho Hop Hz Hne. apply full_of_partial; [exact C|]. intros issues Hc.
+  eapply seeded_hed_id_changed; eassumption.
+Qed.
+
+(* ------------------------------------------------------------------ the range rule of verify_tag_id, edges
+   included: with no previous version of the entry's library to compare with, the hedId number n is
+   reported exactly when n < lo or hi < n for the library's range (lo, hi) -- both bounds are inside
+   the range, and the number 0 (HED_0000000) is treated like any other number. *)
+Lemma verify_tag_id_range_iff fx I L e a s nid k lo hi ks :
+  dict_get a (le_attrs e) = Some (VStr s) ->
+  parse_int (remove_prefix s hed_prefix) = Some nid ->
+  tag_library_key fx e = Some k -> dict_get k (id_data I) = Some (lo, hi) ->
+  dict_get k (id_prev I) = None ->
+  verify_tag_id fx I L e a = Ok ks ->
+  (In K_SCHEMA_HED_ID_INVALID ks <-> (nid < lo \/ hi < nid)%Z).
+Proof.
+  intros Hd Hp Hk Hr Hprev. unfold verify_tag_id. cbv zeta. rewrite Hk, Hprev. cbn [bind].
+  rewrite Hd, Hp, Hr. intros H; inversion H; subst. cbn [app].
+  destruct ((nid <? lo)%Z || (hi <? nid)%Z) eqn:B.
+  - split; [intros _|intros _; left; reflexivity].
+    apply orb_true_iff in B. destruct B as [B|B]; apply Z.ltb_lt in B; [left|right]; exact B.
+  - split; [intros []|]. apply orb_false_iff in B. destruct B as [B1 B2].
+    apply Z.ltb_ge in B1. apply Z.ltb_ge in B2. intros [Hc|Hc]; lia.
+Qed.
+
+Lemma verify_tag_id_zero_reported fx I L e a s k lo hi ks :
+  dict_get a (le_attrs e) = Some (VStr s) ->
+  parse_int (remove_prefix s hed_prefix) = Some 0%Z ->
+  tag_library_key fx e = Some k -> dict_get k (id_data I) = Some (lo, hi) -> (0 < lo)%Z ->
+  verify_tag_id fx I L e a = Ok ks -> In K_SCHEMA_HED_ID_INVALID ks.
+Proof.
+  intros Hd Hp Hk Hr Hlo Hv.
+  exact (hed_id_range_fires fx I L e a s 0%Z k lo hi ks Hd Hp Hk Hr (or_introl Hlo) Hv).
 Qed.
